@@ -8,6 +8,7 @@ package sched
 import (
 	"fmt"
 	"runtime"
+	"sort"
 	"sync"
 	"testing"
 	"testing/synctest"
@@ -17,7 +18,7 @@ import (
 )
 
 const (
-	maxG     = 512
+	maxG     = 2048
 	maxTrace = 1 << 16
 )
 
@@ -242,6 +243,12 @@ func (s *Sched) Spawn(site string) int {
 	raceOff()
 	s.mu.Lock()
 	p.spawns++
+	if s.npend >= maxG || s.ng >= maxG-1 {
+		// not a verdict about the code under test: the simulator cannot follow this many goroutines
+		s.mu.Unlock()
+		raceOn()
+		panic("harness: more goroutines than the simulator follows (limit 2048)")
+	}
 	g := &G{ID: p.ID + "." + itoa(p.spawns), wake: make(chan struct{})}
 	idx := s.npend
 	s.pending[idx] = g
@@ -429,10 +436,14 @@ func (s *Sched) loop(done chan struct{}) (deadlock, budget bool, blocked []strin
 			return true, false, blocked
 		}
 		// canonical order by logical id (insertion sort; n is small)
-		for i := 1; i < n; i++ {
-			for j := i; j > 0 && cand[j].ID < cand[j-1].ID; j-- {
-				cand[j], cand[j-1] = cand[j-1], cand[j]
+		if n <= 32 {
+			for i := 1; i < n; i++ {
+				for j := i; j > 0 && cand[j].ID < cand[j-1].ID; j-- {
+					cand[j], cand[j-1] = cand[j-1], cand[j]
+				}
 			}
+		} else {
+			sort.Slice(cand[:n], func(i, j int) bool { return cand[i].ID < cand[j].ID })
 		}
 		// after a counted pre-emption somebody else runs, if anybody else can
 		if s.avoid != nil {
@@ -558,5 +569,10 @@ func Run(t *testing.T, cfg Config, body func()) (res Result) {
 			<-handoff
 		}
 	})
+	for i := 0; i < s.npanic; i++ {
+		if v := s.panics[i].Value; len(v) > 8 && v[:8] == "harness:" {
+			panic(v) // a limit of the simulator, not a verdict about the code under test: the worker stops (exit 2)
+		}
+	}
 	return
 }
